@@ -49,7 +49,7 @@
 Require Import Calc.Base Calc.Bytecode Calc.Value Calc.FloatText Calc.Ast Calc.Resolve Calc.Compile
         Calc.VM Calc.Sem Calc.Session Calc.CorrSession Calc.SemSession Calc.SemProofs
         Calc.ExprSem Calc.ExprVM Calc.ExprCorrect Calc.ExprTop Calc.ExprAssign Calc.ExprLen Calc.ExprSession
-        Calc.StmtSem Calc.StmtVM Calc.StmtCorrect Calc.StmtTop.
+        Calc.StmtSem Calc.StmtRel Calc.StmtVM Calc.StmtCorrect Calc.StmtTop.
 Open Scope Z_scope.
 
 (* ---- the full statement (open) ---- *)
@@ -227,27 +227,32 @@ Proof.
   - vm_compute. reflexivity.
 Qed.
 
-(* ---- the statement language over globals: blocks, if, if/else, while, write ---- *)
-(* a statement acts on a world: the global bindings, the output written so far, the input still unread.
-   Sem.eval computes the fuelled meaning of a statement: same fuel, same world, same value or error *)
-Theorem C01_sem_statement : forall n t, wstmt t = true -> forall env st W' r,
-  ssem n (wof_s st) t = Some (W', r) ->
-  eval n t env st = Done (with_world st W') (ctl_of r).
+(* ---- the statement language over globals: blocks, if, if/else, while, and calls of the built-ins
+        write(e), toa(e), aton(e) ---- *)
+(* a statement acts on a world: the global bindings, the output written so far, the input still unread
+   (and the allocation counter: a call takes one number).  Bf gives the function values the built-in
+   names were bound to at the start; nm(e) has the built-in meaning while nm is still bound to Bf nm.
+   Sem.eval computes the fuelled meaning of a statement: same fuel, same world, same value or error;
+   sem_bf: the closure table of Sem holds the built-in bodies where Bf points *)
+Theorem C01_sem_statement : forall Bf n t, wstmt t = true -> forall env st W' r,
+  sem_bf Bf st ->
+  ssem Bf n (wof_s st) t = Some (W', r) ->
+  exists st', eval n t env st = Done st' (ctl_of r) /\ wof_s st' = W' /\ s_clos st' = s_clos st.
 Proof. exact eval_stmt. Qed.
 Print Assumptions C01_sem_statement.
 
 (* in every position (value / discarded) the emitted code has that meaning *)
-Theorem C01_statement_compiled : forall t, wstmt t = true ->
-  forall d sel s w s', sel = 0 -> wfcs s -> Compile.comp t sel (tfl d) s = COk (w, s') -> SpecS t d sel s s' w.
+Theorem C01_statement_compiled : forall Bf t, wstmt t = true ->
+  forall d sel s w s', sel = 0 -> wfcs s -> Compile.comp t sel (tfl d) s = COk (w, s') -> SpecS Bf t d sel s s' w.
 Proof. exact comp_stmt. Qed.
 Print Assumptions C01_statement_compiled.
 
-(* value mode (REPL): ByteCode, load, Run *)
-Theorem C01_statement_run : forall t s s' v c m n G' res,
-  wstmt t = true -> wfcs s -> idle v s c m ->
+(* value mode (REPL): ByteCode, load, Run.  bcode: the code of the built-ins lies where Bf points *)
+Theorem C01_statement_run : forall Bf t s s' v c m n G' res,
+  wstmt t = true -> wfcs s -> idle v s c m -> bcode Bf (load_code v s) ->
   ByteCode t s = CompOk s' ->
-  ssem n (wof v) t = Some (G', res) ->
-  wfcs s' /\
+  ssem Bf n (wof v) t = Some (G', res) ->
+  wfcs s' /\ (exists code, rcs s' = rev code ++ rcs s) /\
   exists k, forall fuel,
     ((fuel <= k)%nat -> snd (Run fuel (load_code v s') true) = RFuel \/
                         match res with
@@ -265,10 +270,10 @@ Proof. exact bytecode_run_stmt. Qed.
 Print Assumptions C01_statement_run.
 
 (* file mode: ByteCodeNoStck, Run(false): same world (globals, output, input), nothing left on the stack *)
-Theorem C01_statement_run_file_mode : forall t s s' v c m n G' res,
-  wstmt t = true -> wfcs s -> idle v s c m ->
+Theorem C01_statement_run_file_mode : forall Bf t s s' v c m n G' res,
+  wstmt t = true -> wfcs s -> idle v s c m -> bcode Bf (load_code v s) ->
   ByteCodeNoStck t s = CompOk s' ->
-  ssem n (wof v) t = Some (G', res) ->
+  ssem Bf n (wof v) t = Some (G', res) ->
   wfcs s' /\
   exists k, forall fuel, (k < fuel)%nat ->
     match res with
@@ -280,9 +285,9 @@ Proof. exact bytecode_nostck_run_stmt. Qed.
 Print Assumptions C01_statement_run_file_mode.
 
 (* every history of such statements *)
-Theorem C01_statement_sessions_partial : forall ts mc c m,
-  ready mc c m -> Forall (fun t => wstmt t = true /\ CompileWf.wfb t = true) ts ->
-  sess mc (wof (mc_vm mc)) ts.
+Theorem C01_statement_sessions_partial : forall Bf ts mc c m,
+  bready Bf mc c m -> Forall (fun t => wstmt t = true /\ CompileWf.wfb t = true) ts ->
+  sess Bf mc (wof (mc_vm mc)) ts.
 Proof. exact stmt_session. Qed.
 Print Assumptions C01_statement_sessions_partial.
 
@@ -337,6 +342,88 @@ Example C01_demo_output_is_covered :
   ["before"; "[3, done]"; "4"; "1"; "0"]%string.
 Proof.
   split; [unfold demo_output; repeat constructor|]. split; vm_compute; reflexivity.
+Qed.
+
+(* ---- the two sides, put together ---- *)
+(* The definitional semantics binds a built-in name to an index into its closure table, the VM to an
+   entry point and a frame: the two worlds cannot be equal there.  For statements that use the built-in
+   names only to call them (nobs), worlds that agree everywhere else give the same value or error and
+   stay in agreement: same global data, same output, same input left. *)
+Theorem C01_statement_worlds_related : forall Bf1 Bf2 n t W1 W2 W1' r,
+  wstmt t = true -> nobs t = true -> wrel Bf1 Bf2 W1 W2 ->
+  ssem Bf1 n W1 t = Some (W1', r) ->
+  exists W2', ssem Bf2 n W2 t = Some (W2', r) /\ wrel Bf1 Bf2 W1' W2'.
+Proof. exact ssem_related. Qed.
+Print Assumptions C01_statement_worlds_related.
+
+(* Sem.eval on its state and the compiled code on the VM, from related worlds: whenever the semantics
+   gives the statement a meaning with fuel n, Sem.eval returns it, and — with enough steps — Run returns
+   the same value or error class and leaves a related world *)
+Theorem C01_statement_sem_vs_vm : forall Bf1 Bf2 t s s' v c m n env st W1' res,
+  wstmt t = true -> nobs t = true -> wfcs s -> idle v s c m ->
+  sem_bf Bf1 st -> bcode Bf2 (load_code v s) -> wrel Bf1 Bf2 (wof_s st) (wof v) ->
+  ByteCode t s = CompOk s' ->
+  ssem Bf1 n (wof_s st) t = Some (W1', res) ->
+  (exists st', eval n t env st = Done st' (ctl_of res) /\ wof_s st' = W1') /\
+  exists k, forall fuel, (k < fuel)%nat ->
+    agrees (ctl_of res) (snd (Run fuel (load_code v s') true)) /\
+    match res with
+    | Ok _ => wrel Bf1 Bf2 W1' (wof (fst (Run fuel (load_code v s') true)))
+    | Fail _ => True
+    end.
+Proof.
+  intros Bf1 Bf2 t s s' v c m n env st W1' res Hw Hn Hwf Hid Hsb Hbc HR HB HM. split.
+  - destruct (eval_stmt Bf1 n t Hw env st W1' res Hsb HM) as (st' & E & HW & _). eauto.
+  - destruct (ssem_related Bf1 Bf2 n t _ _ W1' res Hw Hn HR HM) as (W2' & HM2 & HR').
+    destruct (bytecode_run_stmt Bf2 t s s' v c m n W2' res Hw Hwf Hid Hbc HB HM2) as [_ [_ [k R]]].
+    exists k. intros fuel Hf. specialize (R fuel). destruct R as [_ R]. specialize (R Hf). destruct res as [x|err].
+    + destruct R as [v' [m' [R [_ [_ [_ [Hg' _]]]]]]]. rewrite R. split; [reflexivity|]. cbn [fst]. rewrite Hg'. exact HR'.
+    + destruct R as [me [rep R]]. rewrite R. split; [reflexivity|exact I].
+Qed.
+Print Assumptions C01_statement_sem_vs_vm.
+
+(* ---- user-level calls of the built-ins: write(e), toa(e), aton(e) ---- *)
+(* the machine of a session has the built-ins loaded: its own bindings of the built-in names are a Bf
+   for which the premises of the session theorem hold *)
+Definition vm_bf (nm : string) : value := gval (v_globals (mc_vm mc_after_first)) nm.
+
+Example C01_builtin_premises_hold : exists c m, bready vm_bf mc_after_first c m.
+Proof.
+  destruct C01_demo_session_is_covered as [[c [m Hr]] _]. exists c, m. split; [exact Hr|].
+  intros nm b mo fid Hb Hbf. unfold bop_of_name in Hb.
+  destruct (String.eqb_spec nm "write") as [->|_]; [injection Hb as <-|
+    destruct (String.eqb_spec nm "toa") as [->|_]; [injection Hb as <-|
+      destruct (String.eqb_spec nm "aton") as [->|_]; [injection Hb as <-|discriminate Hb]]];
+    vm_compute in Hbf; injection Hbf as <- <-;
+    (eexists; eexists; eexists; eexists; eexists;
+     split; [vm_compute; reflexivity|]; split; [vm_compute; reflexivity|]; split; [vm_compute; reflexivity|];
+     split; [vm_compute; reflexivity|]; split; [vm_compute; reflexivity|]; split; [vm_compute; reflexivity|];
+     split; vm_compute; reflexivity).
+Qed.
+
+Definition demo_calls : list node :=
+  [NAssign (NName "i") (NInt 0);
+   NWhile (NBin "<" (NName "i") (NInt 3))
+          (NBlock [NCall (NName "write") [NBin "*" (NName "i") (NName "i")];
+                   NAssign (NName "i") (NBin "+" (NName "i") (NInt 1))]);
+   NCall (NName "toa") [NList [NName "i"; NFloat 2.5]];
+   NCall (NName "aton") [NStr "42"];
+   NCall (NName "aton") [NStr "4e1"];
+   NCall (NName "aton") [NStr "x"];
+   NCall (NName "aton") [NInt 1];
+   NBlock [NCall (NName "write") [NStr "before"]; NCall (NName "write") [NBin "/" (NInt 1) (NInt 0)];
+           NCall (NName "write") [NStr "never"]];
+   NIfElse (NBin "==" (NName "i") (NInt 3)) (NCall (NName "write") [NStr "three"]) (NCall (NName "toa") [NInt 0])].
+
+Example C01_demo_calls_are_covered :
+  Forall (fun t => wstmt t = true /\ CompileWf.wfb t = true) demo_calls /\
+  map brief (run_all mc_after_first demo_calls) =
+  [Some (Ok (VInt 0)); Some (Ok (VInt 3)); Some (Ok (VStr "[3, 2.5]")); Some (Ok (VInt 42)); Some (Ok (VFloat 40));
+   Some (Fail ErrConversion); Some (Fail ErrType); Some (Fail ErrZeroDiv); Some (Ok VNil)] /\
+  firstn 5 (v_out (mc_vm (end_of mc_after_first demo_calls))) =
+  ["three"; "before"; "4"; "1"; "0"]%string.
+Proof.
+  split; [unfold demo_calls; repeat constructor|]. split; vm_compute; reflexivity.
 Qed.
 
 (* ---- proved: the oracle follows the language rules ---- *)
